@@ -190,7 +190,24 @@ def doc_model(draw, max_depth=6):
     model = {'root': draw(elems(depth, root_level=True)), 'wd': draw(plain_text)}
     if draw(st.booleans()):
         model['comment'] = draw(plain_text)
+    if draw(st.integers(0, 5)) == 0:
+        # twin subtrees: the very same elements (byte-identical in the document) inside an equally
+        # named namespace under two different parents - same text, different fully qualified names
+        import copy
+        inner = [draw(interface_decl())] + draw(st.lists(leaf_elem(False), max_size=2))
+        sub = [{'k': 'ns', 'ids': [draw(st.sampled_from(['Api', 'Hal', 'Types']))], 'elems': inner}]
+        a, b = draw(st.sampled_from([('Alpha', 'Beta'), ('A', 'B'), ('Left', 'Right')]))
+        model['root'] += [{'k': 'ns', 'ids': [a], 'elems': copy.deepcopy(sub)},
+                          {'k': 'ns', 'ids': [b], 'elems': copy.deepcopy(sub)}]
     return model
+
+
+def wrapped(model, outer):
+    """The declarations and namespaces of `model` inside a namespace `outer`: the same elements
+    under another fully qualified name."""
+    import copy
+    keep = [copy.deepcopy(e) for e in model['root'] if e['k'] not in ('import', 'filename', 'raw')]
+    return {'root': [{'k': 'ns', 'ids': list(outer), 'elems': keep}], 'wd': model.get('wd', '')}
 
 
 def noise_fn(noise_dict):
